@@ -2688,6 +2688,9 @@ type wfunc struct {
 	results    []wty
 	fuel       bool // has a leading fuel parameter
 	derefFirst bool // the first statement dereferences the receiver
+	// implicit parameters (after the declared ones): values of the receiver's fields that are not
+	// represented, e.g. `encSize_` = the result of st.encoder.GetEncodedSize(nil)
+	extra []string
 }
 
 type wctx struct {
@@ -2910,6 +2913,9 @@ func (c *wctx) need(recv, name string) *wfunc {
 type wvar struct {
 	name string
 	ty   wty
+	// a local `x := p.f.g` of pointer type that the function writes through: every use of x stands
+	// for the path expression (see aliasDefs)
+	alias ast.Expr
 }
 
 type wtr struct {
@@ -2927,6 +2933,11 @@ type wtr struct {
 	brk    func(ind string) []string
 	cont   func(ind string) []string
 	inLoop bool
+	// locals `x := p.f.g` (pointer to a struct) that the function writes through: definition → path
+	aliasDefs map[types.Object]ast.Expr
+	// locals created by `x := make([]T, n)` whose elements may be assigned
+	made   map[types.Object]bool
+	madeOK map[types.Object]bool // … and that are only indexed, measured or passed to calls
 }
 
 func (w *wtr) fail(n ast.Node, why string) {
@@ -2971,7 +2982,7 @@ func (w *wtr) declare(id *ast.Ident, ty wty) string {
 	if old, ok := w.live[n]; ok && old != o {
 		w.fail(id, "a local shadows a live variable of the same name")
 	}
-	w.env[o] = wvar{n, ty}
+	w.env[o] = wvar{name: n, ty: ty}
 	w.live[n] = o
 	return n
 }
@@ -3065,6 +3076,9 @@ func (w *wtr) expr(e ast.Expr, want *wty) (string, wty) {
 		}
 		o := w.obj(x)
 		if v, ok := w.env[o]; ok && o != nil {
+			if v.alias != nil {
+				return w.expr(v.alias, want)
+			}
 			return v.name, v.ty
 		}
 		w.fail(e, "identifier that is neither a parameter nor a local")
@@ -3228,6 +3242,24 @@ func (w *wtr) expr(e ast.Expr, want *wty) (string, wty) {
 				w.fail(e, "append of an element of another type")
 			}
 			return fmt.Sprintf("(%s ++ [%s])", a, v), aty
+		}
+		if id, ok := x.Fun.(*ast.Ident); ok && id.Name == "make" && w.obj(id) == types.Universe.Lookup("make") {
+			if len(x.Args) != 2 {
+				w.fail(e, "make (only make([]T, n))")
+			}
+			t, ok := w.c.typeOf(w.c.info.Types[x.Args[0]].Type)
+			if !ok || t.k != wkList {
+				w.fail(e, "make of something that is not a slice of integers")
+			}
+			n, nty := w.expr(x.Args[1], &wI64)
+			if nty.k != wkInt {
+				w.fail(e, "make: length")
+			}
+			// (a negative length panics; the elements are zero)
+			if nty.it.signed {
+				return w.bind(fmt.Sprintf("Go.makeS %d %s", nty.it.w, wArg(n))), t
+			}
+			return w.bind(fmt.Sprintf("Go.makeU %s", wArg(n))), t
 		}
 		if id, ok := x.Fun.(*ast.Ident); ok && id.Name == "len" && w.obj(id) == types.Universe.Lookup("len") {
 			if len(x.Args) != 1 {
@@ -3435,8 +3467,16 @@ func (w *wtr) arith(at ast.Node, op token.Token, a, b string, ty wty, divisor as
 		return fmt.Sprintf("(Go.andNot %d %s %s)", n, a, b)
 	case token.QUO, token.REM:
 		tv := w.c.info.Types[divisor]
-		if tv.Value == nil || constant.Sign(constant.ToInt(tv.Value)) == 0 {
-			w.fail(at, "division by something that is not a non-zero constant (panics on zero)")
+		if tv.Value != nil && constant.Sign(constant.ToInt(tv.Value)) == 0 {
+			w.fail(at, "division by the constant zero")
+		}
+		if tv.Value == nil {
+			// the divisor is not a constant: a zero divisor panics
+			g := map[token.Token][2]string{token.QUO: {"divChkS", "divChkU"}, token.REM: {"modChkS", "modChkU"}}[op]
+			if ty.it.signed {
+				return w.bind(fmt.Sprintf("Go.%s %d %s %s", g[0], n, wArg(a), wArg(b)))
+			}
+			return w.bind(fmt.Sprintf("Go.%s %s %s", g[1], wArg(a), wArg(b)))
 		}
 		f := map[token.Token][2]string{token.QUO: {"divS", "divU"}, token.REM: {"modS", "modU"}}[op]
 		if ty.it.signed {
@@ -3454,6 +3494,25 @@ func (w *wtr) arith(at ast.Node, op token.Token, a, b string, ty wty, divisor as
 func (w *wtr) call(x *ast.CallExpr) ([]string, []wty) {
 	if x.Ellipsis.IsValid() {
 		w.fail(x, "variadic call")
+	}
+	// st.encoder.GetEncodedSize(nil): the field `encoder` (an interface value) is not represented;
+	// the result of this call is an implicit parameter of the function (`none`: the call panics)
+	if sel, ok := x.Fun.(*ast.SelectorExpr); ok && sel.Sel.Name == "GetEncodedSize" && len(x.Args) == 1 && isNil(x.Args[0]) {
+		if in, ok := sel.X.(*ast.SelectorExpr); ok && in.Sel.Name == "encoder" {
+			if id, ok := in.X.(*ast.Ident); ok {
+				if v, ok := w.env[w.obj(id)]; ok && w.obj(id) != nil && v.ty.k == wkStruct && v.ty.name == "SlimTrie" && v.alias == nil {
+					w.addExtra("encSize_")
+					return []string{w.bind("Go.encodedSize encSize_")}, []wty{wI64}
+				}
+			}
+		}
+	}
+	// newBM(indexes, capa, "r64"): variadic options, `range`, `switch` — not translated; ASSUMED
+	// specification Go.newBM, accepted only while the text of newBM / indexit is the specified one
+	if id, ok := x.Fun.(*ast.Ident); ok && id.Name == "newBM" {
+		if _, isFunc := w.obj(id).(*types.Func); isFunc {
+			return w.callNewBM(x)
+		}
 	}
 	// external
 	if sel, ok := x.Fun.(*ast.SelectorExpr); ok {
@@ -3552,13 +3611,18 @@ func (w *wtr) call(x *ast.CallExpr) ([]string, []wty) {
 				if !ok || w.obj(id) == nil {
 					w.fail(a, "a value that the callee updates must be a variable")
 				}
-				if _, ok := w.env[w.obj(id)]; !ok {
+				if v, ok := w.env[w.obj(id)]; !ok || v.alias != nil {
 					w.fail(a, "a value that the callee updates must be a variable")
 				}
+				w.checkAliasPrefix(a, w.obj(id), nil)
 				rebind[i] = w.obj(id)
 			}
 		}
 		as = append(as, wArg(s))
+	}
+	for _, e := range callee.extra {
+		w.addExtra(e)
+		as = append(as, e)
 	}
 	if callee.fuel {
 		if !w.fuel {
@@ -3585,6 +3649,141 @@ func (w *wtr) call(x *ast.CallExpr) ([]string, []wty) {
 	}
 	w.pre = append(w.pre, fmt.Sprintf("let %s ← %s %s", tuple(pats), callee.lean, strings.Join(as, " ")))
 	return outs, callee.results
+}
+
+func (w *wtr) addExtra(name string) {
+	for _, e := range w.f.extra {
+		if e == name {
+			return
+		}
+	}
+	w.f.extra = append(w.f.extra, name)
+}
+
+// the text of trie/bitmap.go newBM + indexit that Go.newBM (GoSem.lean) specifies
+const newBMText = `func newBM(indexes []int32, capa int32, opts ...string) *Bitmap {
+	bb := &Bitmap{
+		Words: bitmap.Of(indexes, capa),
+	}
+	bb.indexit(opts...)
+	return bb
+}`
+
+const indexitText = `func (b *Bitmap) indexit(opts ...string) {
+	for _, opt := range opts {
+		switch opt {
+		case "r64":
+			b.RankIndex = bitmap.IndexRank64(b.Words)
+		case "r128":
+			b.RankIndex = bitmap.IndexRank128(b.Words)
+		case "s32":
+
+			b.SelectIndex, b.RankIndex = bitmap.IndexSelect32R64(b.Words)
+		default:
+			panic("unknown " + opt)
+		}
+	}
+}`
+
+func declText(fd *ast.FuncDecl) string {
+	if fd == nil {
+		return ""
+	}
+	d := *fd
+	d.Doc = nil
+	return src(&d)
+}
+
+func normText(s string) string { return strings.Join(strings.Fields(s), " ") }
+
+func (w *wtr) callNewBM(x *ast.CallExpr) ([]string, []wty) {
+	if declText(w.c.findFunc("", "newBM")) != normText(newBMText) || declText(w.c.findFunc("Bitmap", "indexit")) != normText(indexitText) {
+		w.fail(x, "newBM / indexit differ from the text that Go.newBM specifies")
+	}
+	if len(x.Args) != 3 {
+		w.fail(x, "newBM (only newBM(indexes, capa, \"r64\"))")
+	}
+	tv := w.c.info.Types[x.Args[2]]
+	if tv.Value == nil || tv.Value.Kind() != constant.String || constant.StringVal(tv.Value) != "r64" {
+		w.fail(x, "newBM (only the option \"r64\" has a specification)")
+	}
+	idx, ity := w.expr(x.Args[0], &wL32)
+	if ity != wL32 {
+		w.fail(x.Args[0], "argument of newBM")
+	}
+	capa, cty := w.expr(x.Args[1], &wI32)
+	if cty != wI32 {
+		w.fail(x.Args[1], "argument of newBM")
+	}
+	fo := w.obj(x.Fun.(*ast.Ident)).(*types.Func)
+	res := fo.Type().(*types.Signature).Results()
+	if res.Len() != 1 {
+		w.fail(x, "newBM: results")
+	}
+	rt, ok := w.c.typeOf(res.At(0).Type())
+	if !ok || rt.k != wkPtr || rt.name != "Bitmap" {
+		w.fail(x, "newBM: result type")
+	}
+	s := w.c.structs["Bitmap"]
+	if len(s.fields) != 3 || s.fields[0].name != "Words" || s.fields[1].name != "RankIndex" || s.fields[2].name != "SelectIndex" {
+		w.fail(x, "newBM: fields of Bitmap")
+	}
+	t1, t2 := w.fresh(), w.fresh()
+	w.pre = append(w.pre, fmt.Sprintf("let (%s, %s) ← Go.newBMr64 %s %s", t1, t2, wArg(idx), wArg(capa)))
+	return []string{fmt.Sprintf("(some ({ Words := %s, RankIndex := %s, SelectIndex := [] } : Bitmap))", t1, t2)}, []wty{rt}
+}
+
+// pathOf: a place `v.f.g…` rooted at a struct variable (aliases expanded): the variable and the fields
+func (w *wtr) pathOf(e ast.Expr) (wvar, types.Object, []string) {
+	switch x := e.(type) {
+	case *ast.ParenExpr:
+		return w.pathOf(x.X)
+	case *ast.Ident:
+		o := w.obj(x)
+		v, ok := w.env[o]
+		if !ok || o == nil {
+			w.fail(e, "assignment through a pointer that is not a variable")
+		}
+		if v.alias != nil {
+			return w.pathOf(v.alias)
+		}
+		if v.ty.k != wkStruct {
+			w.fail(e, "assignment to a field of something that is not a pointer parameter or a local &T{}")
+		}
+		return v, o, nil
+	case *ast.SelectorExpr:
+		v, o, fs := w.pathOf(x.X)
+		return v, o, append(append([]string{}, fs...), x.Sel.Name)
+	}
+	w.fail(e, "assignment through a pointer that is not a variable")
+	return wvar{}, nil, nil
+}
+
+// checkAliasPrefix: an assignment to the place `root.fs…` (or a call that updates root, fs = nil)
+// must not change a pointer on the path of a live alias
+func (w *wtr) checkAliasPrefix(at ast.Node, root types.Object, fs []string) {
+	bad := false
+	for _, v := range w.env {
+		if v.alias == nil {
+			continue
+		}
+		_, ro, afs := w.pathOf(v.alias)
+		if ro != root || len(fs) > len(afs) {
+			continue
+		}
+		pre := true
+		for i := range fs {
+			if fs[i] != afs[i] {
+				pre = false
+			}
+		}
+		if pre {
+			bad = true
+		}
+	}
+	if bad {
+		w.fail(at, "assignment to a pointer on the path of a live alias")
+	}
 }
 
 func wArg(s string) string {
@@ -3660,7 +3859,8 @@ func (w *wtr) exits(n ast.Node) bool {
 // assigned: the variables of the current environment that the statements assign (sorted by name)
 func (w *wtr) assigned(stmts []ast.Stmt) []wvar {
 	set := map[string]wvar{}
-	mark := func(e ast.Expr) {
+	var mark func(e ast.Expr)
+	mark = func(e ast.Expr) {
 		for {
 			switch x := e.(type) {
 			case *ast.ParenExpr:
@@ -3679,6 +3879,24 @@ func (w *wtr) assigned(stmts []ast.Stmt) []wvar {
 			break
 		}
 		if id, ok := e.(*ast.Ident); ok {
+			if a, ok := w.aliasDefs[w.obj(id)]; ok && w.obj(id) != nil {
+				// a write through an alias updates the variable at the root of its path
+				for {
+					switch y := a.(type) {
+					case *ast.ParenExpr:
+						a = y.X
+						continue
+					case *ast.SelectorExpr:
+						a = y.X
+						continue
+					}
+					break
+				}
+				if rid, ok := a.(*ast.Ident); ok && rid != id {
+					mark(rid)
+				}
+				return
+			}
 			if v, ok := w.env[w.obj(id)]; ok && w.obj(id) != nil {
 				set[v.name] = v
 			}
@@ -3726,6 +3944,9 @@ func (w *wtr) assigned(stmts []ast.Stmt) []wvar {
 func (w *wtr) calleeOf(x *ast.CallExpr) *wfunc {
 	switch f := x.Fun.(type) {
 	case *ast.Ident:
+		if f.Name == "newBM" {
+			return nil // by specification (callNewBM); it updates none of its arguments
+		}
 		if _, ok := w.obj(f).(*types.Func); ok {
 			return w.c.need("", f.Name)
 		}
@@ -3994,6 +4215,8 @@ type wplace struct {
 	star  bool   // *v = … on a pointer to a slice
 	ty    wty
 	def   *ast.Ident // a new variable declared by `:=`
+	path  []string   // v.f1.….fk through pointer fields (k > 1)
+	index ast.Expr   // v[index] on a local slice made by make
 }
 
 func (w *wtr) place(l ast.Expr, define bool) wplace {
@@ -4028,20 +4251,38 @@ func (w *wtr) place(l ast.Expr, define bool) wplace {
 		}
 		return wplace{v: v, obj: o, star: true, ty: wty{k: wkList, it: v.ty.it}}
 	case *ast.SelectorExpr:
+		v, o, fs := w.pathOf(x)
+		w.checkAliasPrefix(l, o, fs)
+		cur := v.ty
+		var fty wty
+		for i, fn := range fs {
+			if cur.k != wkStruct && cur.k != wkPtr {
+				w.fail(l, "selection on something that is not a struct")
+			}
+			f, ok := w.c.structs[cur.name].field(fn)
+			if !ok {
+				w.fail(l, "field that is not represented")
+			}
+			if i < len(fs)-1 && f.ty.k != wkPtr {
+				w.fail(l, "assignment through a field that is not a pointer to a struct")
+			}
+			cur, fty = f.ty, f.ty
+		}
+		if len(fs) == 1 {
+			return wplace{v: v, obj: o, field: fs[0], ty: fty}
+		}
+		return wplace{v: v, obj: o, path: fs, ty: fty}
+	case *ast.IndexExpr:
 		id, ok := x.X.(*ast.Ident)
 		if !ok {
-			w.fail(l, "assignment through a pointer that is not a variable")
+			w.fail(l, "element assignment to something that is not a local slice")
 		}
 		o := w.obj(id)
 		v, ok := w.env[o]
-		if !ok || o == nil || v.ty.k != wkStruct {
-			w.fail(l, "assignment to a field of something that is not a pointer parameter or a local &T{}")
+		if !ok || o == nil || v.ty.k != wkList || !w.made[o] {
+			w.fail(l, "element assignment to a slice that is not a local made by make (aliasing)")
 		}
-		f, ok := w.c.structs[v.ty.name].field(x.Sel.Name)
-		if !ok {
-			w.fail(l, "field that is not represented")
-		}
-		return wplace{v: v, obj: o, field: f.name, ty: f.ty}
+		return wplace{v: v, obj: o, index: x.Index, ty: wty{k: wkInt, it: v.ty.it}}
 	}
 	w.fail(l, "assignment to an unsupported place")
 	return wplace{}
@@ -4066,6 +4307,32 @@ func (w *wtr) store(p wplace, val string, ty wty, at ast.Node) []string {
 	}
 	if p.field != "" {
 		return []string{fmt.Sprintf("let %s := { %s with %s := %s }", p.v.name, p.v.name, leanName(p.field), val)}
+	}
+	if len(p.path) > 1 {
+		// v.f1.….fk = val: dereference the pointers on the way, rebuild the records from the inside
+		names := []string{p.v.name}
+		var lines []string
+		for _, fn := range p.path[:len(p.path)-1] {
+			t := w.fresh()
+			lines = append(lines, fmt.Sprintf("let %s ← Go.deref %s.%s", t, names[len(names)-1], leanName(fn)))
+			names = append(names, t)
+		}
+		inner := fmt.Sprintf("{ %s with %s := %s }", names[len(names)-1], leanName(p.path[len(p.path)-1]), val)
+		for i := len(p.path) - 2; i >= 0; i-- {
+			inner = fmt.Sprintf("{ %s with %s := some %s }", names[i], leanName(p.path[i]), inner)
+		}
+		return append(lines, fmt.Sprintf("let %s := %s", p.v.name, inner))
+	}
+	if p.index != nil {
+		i, ity := w.expr(p.index, &wI64)
+		if ity.k != wkInt {
+			w.fail(at, "index")
+		}
+		lines := w.takePre()
+		if ity.it.signed {
+			return append(lines, fmt.Sprintf("let %s ← Go.setS %d %s %s %s", p.v.name, ity.it.w, p.v.name, wArg(i), wArg(val)))
+		}
+		return append(lines, fmt.Sprintf("let %s ← Go.setU %s %s %s", p.v.name, p.v.name, wArg(i), wArg(val)))
 	}
 	if p.star {
 		// (a nil pointer panics; the slice it points to is replaced)
@@ -4114,6 +4381,29 @@ func (w *wtr) assignStmt(x *ast.AssignStmt) []string {
 	}
 	if len(x.Lhs) == 1 {
 		p := w.place(x.Lhs[0], define)
+		if p.def != nil {
+			o := w.c.info.Defs[p.def]
+			if a, ok := w.aliasDefs[o]; ok && o != nil && a == x.Rhs[0] {
+				// x := p.f.g, and the function writes through x: x stands for the path.  The pointers
+				// on the path are dereferenced here (as Go does); they are not assigned while x lives.
+				_, ty := w.expr(x.Rhs[0], nil)
+				if ty.k != wkPtr {
+					w.fail(x, "alias of something that is not a pointer to a struct")
+				}
+				w.pathOf(x.Rhs[0])
+				lines := w.takePre()
+				w.declare(p.def, ty)
+				v := w.env[o]
+				v.alias = x.Rhs[0]
+				w.env[o] = v
+				return lines
+			}
+			if c, ok := x.Rhs[0].(*ast.CallExpr); ok && w.madeOK[o] {
+				if id, ok := c.Fun.(*ast.Ident); ok && id.Name == "make" {
+					w.made[o] = true
+				}
+			}
+		}
 		var want *wty
 		if p.def == nil && !p.blank {
 			want = &p.ty
@@ -4178,8 +4468,15 @@ func stripAddr(e ast.Expr) ast.Expr {
 // the auxiliary definition `<f>_loop<k> fuel state`, structurally recursive on the fuel; `none` when
 // the fuel runs out.  The state is the tuple of outer variables the body assigns.
 func (w *wtr) forLoop(x *ast.ForStmt, next func() []string) []string {
-	if x.Init != nil || x.Cond != nil || x.Post != nil {
-		w.fail(x, "for loop with a header (only `for { … }` in a whole function)")
+	if x.Init != nil {
+		// for init; cond; post { … }: the init statement, then the loop; its variables end with the loop
+		y := *x
+		y.Init = nil
+		se, sl := w.saveEnv()
+		return w.block([]ast.Stmt{x.Init, &y}, func() []string {
+			w.env, w.live = se, sl
+			return next()
+		})
 	}
 	if !w.fuel {
 		w.fail(x, "loop in a function that was not given fuel")
@@ -4187,7 +4484,11 @@ func (w *wtr) forLoop(x *ast.ForStmt, next func() []string) []string {
 	if w.brk != nil {
 		w.fail(x, "nested loop")
 	}
-	vars := w.assigned(x.Body.List)
+	stateStmts := x.Body.List
+	if x.Post != nil {
+		stateStmts = append(append([]ast.Stmt{}, x.Body.List...), x.Post)
+	}
+	vars := w.assigned(stateStmts)
 	var names, tys []string
 	for _, v := range vars {
 		names = append(names, v.name)
@@ -4208,15 +4509,21 @@ func (w *wtr) forLoop(x *ast.ForStmt, next func() []string) []string {
 	for _, n := range names {
 		seen[n] = true
 	}
-	ast.Inspect(x.Body, func(n ast.Node) bool {
+	var noteIdent func(n ast.Node) bool
+	noteIdent = func(n ast.Node) bool {
 		if id, ok := n.(*ast.Ident); ok {
 			if v, ok := w.env[w.obj(id)]; ok && w.obj(id) != nil && !seen[v.name] {
+				if v.alias != nil {
+					ast.Inspect(v.alias, noteIdent) // the variables of the path it stands for
+					return true
+				}
 				seen[v.name] = true
 				ps = append(ps, v)
 			}
 		}
 		return true
-	})
+	}
+	ast.Inspect(x, noteIdent) // (body, condition and post statement; the init statement was split off)
 	sort.Slice(ps, func(i, j int) bool { return ps[i].name < ps[j].name })
 	var sig, args []string
 	for _, p := range ps {
@@ -4227,11 +4534,32 @@ func (w *wtr) forLoop(x *ast.ForStmt, next func() []string) []string {
 	resTy := w.resultType()
 	state := tuple(names)
 	w.brk = func(string) []string { return []string{"pure (Sum.inr " + state + ")"} }
-	w.cont = func(string) []string {
+	again := func() []string {
 		return []string{fmt.Sprintf("%s fuel %s", strings.Join(append([]string{aux}, args...), " "), state)}
 	}
+	w.cont = func(string) []string { return again() }
+	if x.Post != nil {
+		// `continue` and the end of the body run the post statement first
+		w.cont = func(string) []string { return w.block([]ast.Stmt{x.Post}, again) }
+	}
 	w.inLoop = true
-	body := w.block(x.Body.List, func() []string { return w.cont("") })
+	var body []string
+	if x.Cond != nil {
+		c, cty := w.expr(x.Cond, nil)
+		if cty.k != wkBool {
+			w.fail(x, "condition")
+		}
+		body = w.takePre()
+		ce, cl := w.saveEnv()
+		inner := w.block(x.Body.List, func() []string { return w.cont("") })
+		w.env, w.live = ce, cl
+		body = append(body, "if "+c+" then")
+		body = append(body, indent(inner, "  ")...)
+		body = append(body, "else")
+		body = append(body, indent(w.brk(""), "  ")...)
+	} else {
+		body = w.block(x.Body.List, func() []string { return w.cont("") })
+	}
 	w.inLoop = false
 	w.brk, w.cont = nil, nil
 	w.env, w.live = se, sl
@@ -4302,10 +4630,152 @@ func (c *wctx) usesLoop(fd *ast.FuncDecl, seen map[*ast.FuncDecl]bool) bool {
 	return found
 }
 
+// aliasDefsOf: the locals `x := p.f.g` of type pointer-to-struct through which the function assigns
+// (`x.h = …`), with their defining path.  Such a local is defined once, never assigned again and its
+// address is not taken; every use of it is translated as the path it stands for.
+func aliasDefsOf(info *types.Info, fd *ast.FuncDecl) map[types.Object]ast.Expr {
+	written := map[types.Object]bool{}
+	base := func(e ast.Expr) types.Object {
+		for {
+			if p, ok := e.(*ast.ParenExpr); ok {
+				e = p.X
+				continue
+			}
+			break
+		}
+		sel, ok := e.(*ast.SelectorExpr)
+		if !ok {
+			return nil
+		}
+		id, ok := sel.X.(*ast.Ident)
+		if !ok {
+			return nil
+		}
+		v, ok := info.Uses[id].(*types.Var)
+		if !ok || v.IsField() {
+			return nil
+		}
+		if p, ok := v.Type().Underlying().(*types.Pointer); ok {
+			if _, ok := p.Elem().Underlying().(*types.Struct); ok {
+				return v
+			}
+		}
+		return nil
+	}
+	ast.Inspect(fd.Body, func(n ast.Node) bool {
+		switch a := n.(type) {
+		case *ast.AssignStmt:
+			for _, l := range a.Lhs {
+				if o := base(l); o != nil {
+					written[o] = true
+				}
+			}
+		case *ast.IncDecStmt:
+			if o := base(a.X); o != nil {
+				written[o] = true
+			}
+		}
+		return true
+	})
+	defs := map[types.Object]ast.Expr{}
+	bad := map[types.Object]bool{}
+	ast.Inspect(fd.Body, func(n ast.Node) bool {
+		switch a := n.(type) {
+		case *ast.AssignStmt:
+			for i, l := range a.Lhs {
+				id, ok := l.(*ast.Ident)
+				if !ok {
+					continue
+				}
+				if o := info.Defs[id]; o != nil && written[o] && a.Tok == token.DEFINE && len(a.Lhs) == 1 && len(a.Rhs) == 1 {
+					if _, isSel := a.Rhs[i].(*ast.SelectorExpr); isSel {
+						if _, dup := defs[o]; dup {
+							bad[o] = true
+						}
+						defs[o] = a.Rhs[i]
+						continue
+					}
+				}
+				if o := info.Uses[id]; o != nil && written[o] {
+					bad[o] = true // assigned again
+				}
+			}
+		case *ast.UnaryExpr:
+			if id, ok := a.X.(*ast.Ident); ok && a.Op == token.AND {
+				if o := info.Uses[id]; o != nil {
+					bad[o] = true
+				}
+			}
+		}
+		return true
+	})
+	for o := range bad {
+		delete(defs, o)
+	}
+	return defs
+}
+
+// madeLocalsOf: the locals `x := make(…)` that occur only as x[i], len(x) or as an argument of a call
+// (no second name for the slice: element assignment cannot be seen through another variable)
+func madeLocalsOf(info *types.Info, fd *ast.FuncDecl) map[types.Object]bool {
+	okm := map[types.Object]bool{}
+	bad := map[types.Object]bool{}
+	var stack []ast.Node
+	ast.Inspect(fd.Body, func(n ast.Node) bool {
+		if n == nil {
+			stack = stack[:len(stack)-1]
+			return true
+		}
+		if id, ok := n.(*ast.Ident); ok {
+			var parent ast.Node
+			if len(stack) > 0 {
+				parent = stack[len(stack)-1]
+			}
+			if o := info.Defs[id]; o != nil {
+				if as, ok := parent.(*ast.AssignStmt); ok && as.Tok == token.DEFINE && len(as.Lhs) == 1 && len(as.Rhs) == 1 {
+					if c, ok := as.Rhs[0].(*ast.CallExpr); ok {
+						if f, ok := c.Fun.(*ast.Ident); ok && f.Name == "make" {
+							okm[o] = true
+						}
+					}
+				}
+			} else if o := info.Uses[id]; o != nil {
+				switch p := parent.(type) {
+				case *ast.IndexExpr:
+					if p.X != ast.Expr(id) {
+						bad[o] = true
+					}
+				case *ast.CallExpr:
+					isArg := false
+					for _, a := range p.Args {
+						if a == ast.Expr(id) {
+							isArg = true
+						}
+					}
+					if !isArg {
+						bad[o] = true
+					}
+				default:
+					bad[o] = true
+				}
+			}
+		}
+		stack = append(stack, n)
+		return true
+	})
+	for o := range bad {
+		delete(okm, o)
+	}
+	return okm
+}
+
 // translate: one function or method
 func (c *wctx) translate(key string, fd *ast.FuncDecl) (*wfunc, string) {
 	f := &wfunc{key: key, lean: key}
-	w := &wtr{c: c, f: f, fd: fd, env: map[types.Object]wvar{}, live: map[string]types.Object{}}
+	w := &wtr{c: c, f: f, fd: fd, env: map[types.Object]wvar{}, live: map[string]types.Object{},
+		made: map[types.Object]bool{}}
+	w.aliasDefs = aliasDefsOf(c.info, fd)
+	w.madeOK = madeLocalsOf(c.info, fd)
 	ast.Inspect(fd.Body, func(n ast.Node) bool {
 		switch n.(type) {
 		case *ast.FuncLit, *ast.GoStmt, *ast.DeferStmt, *ast.SwitchStmt, *ast.TypeSwitchStmt, *ast.SelectStmt, *ast.LabeledStmt, *ast.RangeStmt, *ast.SendStmt:
@@ -4340,7 +4810,7 @@ func (c *wctx) translate(key string, fd *ast.FuncDecl) (*wfunc, string) {
 				w.fail(nm, "blank parameter")
 			}
 			f.params = append(f.params, wparam{name: n, obj: o, ty: ty, ptr: ptr})
-			w.env[o] = wvar{n, ty}
+			w.env[o] = wvar{name: n, ty: ty}
 			w.live[n] = o
 		}
 	}
@@ -4395,6 +4865,23 @@ func (c *wctx) translate(key string, fd *ast.FuncDecl) (*wfunc, string) {
 	// which pointer parameters does the function update?
 	mut := map[int]bool{}
 	pidx := func(e ast.Expr) int {
+		// the variable at the root of a place p.f.g (aliases expanded)
+		for {
+			switch y := e.(type) {
+			case *ast.ParenExpr:
+				e = y.X
+				continue
+			case *ast.SelectorExpr:
+				e = y.X
+				continue
+			case *ast.Ident:
+				if a, ok := w.aliasDefs[w.obj(y)]; ok && w.obj(y) != nil {
+					e = a
+					continue
+				}
+			}
+			break
+		}
 		if id, ok := e.(*ast.Ident); ok {
 			for i, p := range f.params {
 				if p.obj == w.obj(id) && p.obj != nil {
@@ -4470,6 +4957,9 @@ func (c *wctx) translate(key string, fd *ast.FuncDecl) (*wfunc, string) {
 	for _, p := range f.params {
 		sig = append(sig, fmt.Sprintf("(%s : %s)", p.name, p.ty.lean()))
 	}
+	for _, e := range f.extra {
+		sig = append(sig, fmt.Sprintf("(%s : Option Nat)", e))
+	}
 	rt := w.resultType()
 	var b strings.Builder
 	for _, a := range w.aux {
@@ -4537,4 +5027,6 @@ var wTargets = [][2]string{
 	{"SlimTrie", "cmpLeafPrefix"},
 	{"SlimTrie", "rightMost"},
 	{"SlimTrie", "leftMost"},
+	// the legacy loader (slimtrie_marshal.go)
+	{"", "before000512FixLeafSize"},
 }
